@@ -146,6 +146,11 @@ PrefixOrder ==
        /\ Len(ta) = Len(tb)
        /\ SLess(a, b) <=> BytesLess(ta, tb)
        /\ a = b <=> ta = tb
+(* the chunked integer versions used at full width are the same functions   *)
+PrefixFast ==
+  \A k \in Levels :
+    /\ PrefixCodeD(min0, k) = PrefixCode(min0, k * DB)
+    /\ DecodeTermD(PrefixCode(min0, k * DB)) = DecodeTerm(PrefixCode(min0, k * DB))
 (* terms of different shifts never collide (the shift byte separates them)  *)
 PrefixSeparate ==
   \A s, t \in 0..(W-1) : s # t => PrefixCode(min0, s) # PrefixCode(max0, t)
